@@ -291,8 +291,9 @@ func (conn *Tunnel) requestTunnel(data cemi.Message) error {
 				return errors.New("connection server has terminated")
 			}
 
-			// Ignore mismatching sequence numbers.
-			if res.SeqNumber != conn.seqNumber {
+			// Ignore mismatching sequence numbers, and acknowledgements that were relayed for the
+			// channel of a previous connection (they may still be on offer after a reconnect).
+			if res.SeqNumber != conn.seqNumber || res.Channel != conn.channel {
 				continue
 			}
 
